@@ -24,6 +24,7 @@ import (
 	"sort"
 	"strings"
 	"testing"
+	"verif/plumb"
 
 	"github.com/wi1dcard/fingerproxy/pkg/fingerprint"
 	"github.com/wi1dcard/fingerproxy/pkg/ja4"
@@ -41,6 +42,14 @@ func TestCheck(t *testing.T) {
 	rep := ev.New("C02", "exploration")
 	defer rep.Write()
 	seamA(rep)
+	shard, of := mc.ShardFromEnv()
+	plumb.SeamB(t, rep, "C02", "X-JA4-Fingerprint", func(rec []byte) ([]string, bool) {
+		p, err := chello.Parse(rec)
+		if err != nil {
+			return nil, false
+		}
+		return ja4ref.Of(p).Strings(), true
+	}, shard, of)
 }
 
 // accepted is the domain rule (DESIGN §3 rule 1): a real crypto/tls server fed
